@@ -7,7 +7,7 @@ import (
 )
 
 // treeSpaces runs body over the S3 token spaces and the corpus (the grammar spaces are added by grammar-based checks).
-func treeSpaces(r *explore.Run, body func(c *explore.Ctx, e *Entry, s string, res ParseResult)) {
+func treeSpaces(r *explore.Run, gramBase int, body func(c *explore.Ctx, e *Entry, s string, res ParseResult)) {
 	wrap := func(c *explore.Ctx, e *Entry, s string) {
 		res := e.Call(s)
 		if res.Panic != nil {
@@ -18,7 +18,8 @@ func treeSpaces(r *explore.Run, body func(c *explore.Ctx, e *Entry, s string, re
 	}
 	tokenSpaces(r, explore.Options{}, false, wrap)
 	corpusSpace(r, wrap)
-	grammarTreeSpace(r, wrap)
+	grammarTreeSpace(r, gramBase, wrap)
+	editSpace(r, 1, wrap)
 }
 
 func outcomeTree(c *explore.Ctx, e *Entry, s string, res ParseResult) {
@@ -38,7 +39,7 @@ func C04(r *explore.Run) {
 	r.Rule = "every tree returned for every S3 token string (4 entry points per alphabet), every corpus file and every grammar sentence (with and without errors): Walk/Inspect/Preorder on the root and SQL()/Pos()/End() on every node reached by the reflective walker R5; " +
 		"non-trivial = tree with >=2 nodes; distinct by (entry point, error/no error, tree shape)"
 	r.Assume = []string{"nodes are enumerated by reflection (R5), not by Walk, so a Walk defect cannot hide nodes"}
-	treeSpaces(r, func(c *explore.Ctx, e *Entry, s string, res ParseResult) {
+	treeSpaces(r, 3, func(c *explore.Ctx, e *Entry, s string, res ParseResult) {
 		for sig, d := range checkTotalMethods(res) {
 			c.Violation(sig, e.Name+": "+s, d)
 		}
@@ -51,7 +52,7 @@ func C05(r *explore.Run) {
 	r.Rule = "every node (R5) of every tree of the S3 token strings, corpus files and grammar sentences: range, token alignment (error-free), nesting and sibling order (CreateTable exempt); " +
 		"non-trivial = tree with >=2 nodes; distinct by (entry point, error/no error, tree shape)"
 	r.Assume = []string{"token boundaries come from the public lexer (decided by C13/C14), with the split points of '>>' and '<>' admitted"}
-	treeSpaces(r, func(c *explore.Ctx, e *Entry, s string, res ParseResult) {
+	treeSpaces(r, 3, func(c *explore.Ctx, e *Entry, s string, res ParseResult) {
 		for sig, d := range checkPositions(s, res) {
 			c.Violation(sig, e.Name+": "+s, d)
 		}
@@ -69,7 +70,7 @@ func C09(r *explore.Run) {
 	r.Rule = "every call on the S3 token strings, corpus files and grammar sentences: nil error => no Bad node and every token inside a returned node; Bad node => error; MultiError has >= one element per BadNode, messages non-empty, positions in range; " +
 		"non-trivial = call returning an error; distinct by (entry point, #errors, #Bad nodes, tree shape)"
 	r.Assume = []string{"'input remains' is judged from the root's End(), only when that End is a token end (position soundness is C05)"}
-	treeSpaces(r, func(c *explore.Ctx, e *Entry, s string, res ParseResult) {
+	treeSpaces(r, 3, func(c *explore.Ctx, e *Entry, s string, res ParseResult) {
 		for sig, d := range checkErrorContract(e, s, res) {
 			c.Violation(sig, e.Name+": "+s, d)
 		}
@@ -88,7 +89,7 @@ func C10(r *explore.Run) {
 	r.Rule = "every BadNode of every tree of the S3 token strings, corpus files and single-edit neighbours of grammar sentences: range vs first/last token, Tokens vs the recovery-mode lexing of the whole input restricted to the range, disjointness, SQL() re-lexing; " +
 		"non-trivial = input producing >=1 Bad node; distinct by (entry point, tree shape)"
 	r.Assume = []string{"the reference token list is the recovery-mode lexer (overlay hook) run over the whole input; its agreement with NextToken on clean text is checked in every case"}
-	treeSpaces(r, func(c *explore.Ctx, e *Entry, s string, res ParseResult) {
+	treeSpaces(r, 2, func(c *explore.Ctx, e *Entry, s string, res ParseResult) {
 		v, n := checkBadNodes(e, s, res)
 		for sig, d := range v {
 			c.Violation(sig, e.Name+": "+s, d)
@@ -116,7 +117,7 @@ func C10(r *explore.Run) {
 }
 
 // grammarTreeSpace is replaced once the reference grammar exists.
-var grammarTreeSpace = func(r *explore.Run, body func(c *explore.Ctx, e *Entry, s string)) {}
+var grammarTreeSpace = func(r *explore.Run, base int, body func(c *explore.Ctx, e *Entry, s string)) {}
 
 func init() {
 	Registry["C04"] = C04
